@@ -158,10 +158,11 @@ fn c12_fixed_roundtrip() {
             return;
         },
     };
-    assert!(bytes.len() == FIXED_ARCHIVE + 4);
+    let n = bytes.len();
+    assert!(n >= FIXED_ARCHIVE + 4 && n <= 32);
     let mut t = [0u8; 4];
-    t.copy_from_slice(&bytes[8..]);
-    assert!(crc32_ref(&bytes[..8]) == u32::from_le_bytes(t), "trailer is the CRC-32 of the body");
+    t.copy_from_slice(&bytes[n - 4..]);
+    assert!(crc32_ref(&bytes[..n - 4]) == u32::from_le_bytes(t), "trailer is the CRC-32 of the body");
     let view = match DataView::<Fixed>::using(bytes) {
         Ok(view) => view,
         Err(_) => {
@@ -378,5 +379,121 @@ fn c12_status_roundtrip_len0() {
 #[kani::stub(std::collections::hash_map::RandomState::new, fixed_state)]
 fn c12_status_roundtrip_len4() {
     status_roundtrip::<4>();
+}
+
+// ---- small message types whose archive is not a multiple of 4 bytes (alignment 1 and 2): the
+//      receiver must still see exactly the value sent (nothing may be padded in before the trailer)
+#[repr(C)]
+#[derive(Serialize, Deserialize, Archive, PartialEq, Eq, Debug, Clone, Copy)]
+#[archive(compare(PartialEq))]
+#[archive_attr(derive(PartialEq, Eq, Debug))]
+pub struct Rgb {
+    r: u8,
+    g: u8,
+    b: u8,
+}
+
+#[repr(C)]
+#[derive(Serialize, Deserialize, Archive, PartialEq, Eq, Debug, Clone, Copy)]
+#[archive(compare(PartialEq))]
+#[archive_attr(derive(PartialEq, Eq, Debug))]
+pub struct Pair16 {
+    x: u16,
+    y: u16,
+    z: u16,
+}
+
+#[kani::proof]
+#[kani::unwind(34)]
+#[kani::stub(crc32fast::Hasher::internal_new_specialized, no_simd)]
+#[kani::stub(std::collections::hash_map::RandomState::new, fixed_state)]
+fn c12_small_types_roundtrip() {
+    let v = Rgb { r: kani::any(), g: kani::any(), b: kani::any() };
+    match to_view_bytes(&v) {
+        Ok(bytes) => {
+            match DataView::<Rgb>::using(bytes) {
+                Ok(view) => {
+                    assert!(view.r == v.r && view.g == v.g && view.b == v.b, "3-byte message arrives unchanged");
+                    std::mem::forget(view);
+                },
+                Err(_) => assert!(false, "a frame produced by to_view_bytes is accepted"),
+            }
+        },
+        Err(_) => assert!(false),
+    }
+    let w = Pair16 { x: kani::any(), y: kani::any(), z: kani::any() };
+    match to_view_bytes(&w) {
+        Ok(bytes) => {
+            match DataView::<Pair16>::using(bytes) {
+                Ok(view) => {
+                    assert!(view.x == w.x && view.y == w.y && view.z == w.z, "6-byte message arrives unchanged");
+                    std::mem::forget(view);
+                },
+                Err(_) => assert!(false, "a frame produced by to_view_bytes is accepted"),
+            }
+        },
+        Err(_) => assert!(false),
+    }
+    let code = any_code();
+    let k = match code {
+        ErrorCode::ServiceUnavailable => 0u8,
+        ErrorCode::InternalError => 1,
+        ErrorCode::InvalidPayload => 2,
+        ErrorCode::ConnectionError => 3,
+        ErrorCode::Timeout => 4,
+    };
+    match to_view_bytes(&code) {
+        Ok(bytes) => match DataView::<ErrorCode>::using(bytes) {
+            Ok(view) => {
+                let back = match view.deserialize_view() {
+                    Ok(ErrorCode::ServiceUnavailable) => 0u8,
+                    Ok(ErrorCode::InternalError) => 1,
+                    Ok(ErrorCode::InvalidPayload) => 2,
+                    Ok(ErrorCode::ConnectionError) => 3,
+                    Ok(ErrorCode::Timeout) => 4,
+                    Err(_) => 9,
+                };
+                assert!(back == k, "a bare error code arrives unchanged");
+                std::mem::forget(view);
+            },
+            Err(_) => assert!(false),
+        },
+        Err(_) => assert!(false),
+    }
+    kani::cover!(k == 4, "last error code");
+}
+
+// ---- large frames (receiver side): a body of BIG concrete zero bytes followed by a symbolic
+//      16-byte fixed part and a symbolic trailer.  The whole body must be covered by the checksum:
+//      a frame and the same frame with one bit flipped in its last 20 bytes are never both accepted.
+//      (The sender side is not run here: rkyv serialises a byte payload element by element, two
+//      loops of BIG iterations, which is outside what the unwinder reaches.)
+const BIG: usize = 5000;
+
+fn big_frame(tail: &[u8; 20]) -> AlignedVec {
+    let zeros = [0u8; BIG];
+    let mut v = AlignedVec::with_capacity(BIG + 32);
+    v.extend_from_slice(&zeros);
+    v.extend_from_slice(tail);
+    v
+}
+
+#[kani::proof]
+#[kani::unwind(90)]
+#[kani::stub(crc32fast::Hasher::internal_new_specialized, no_simd)]
+fn c12_large_frame_tail_protected() {
+    let tail: [u8; 20] = kani::any();
+    let mut flipped = tail;
+    let k: usize = kani::any();
+    let j: u8 = kani::any();
+    kani::assume(k < 20 && j < 8);
+    flipped[k] ^= 1u8 << j;
+    let a = DataView::<WithBytes>::using(big_frame(&tail));
+    let b = DataView::<WithBytes>::using(big_frame(&flipped));
+    assert!(!(a.is_ok() && b.is_ok()), "a large frame and its single-bit corruption are never both accepted");
+    kani::cover!(a.is_ok(), "some large frame is accepted");
+    kani::cover!(b.is_ok() && k < 16, "accepted frame whose neighbour differs in the fixed part");
+    std::mem::forget(a);
+    std::mem::forget(b);
 }
 // @@PLAYBACK@@
